@@ -1039,6 +1039,16 @@ MUTANTS = [
     dict(id="C12.l-read_raw_bytes-buffer-one-short", prop="C12", file="crates/serialize/src/postcard.rs",
          old="        let mut buf = vec![0u8; len];\n        self.reader.read_exact(&mut buf)?;", new="        let mut buf = vec![0u8; len.saturating_sub(1)];\n        self.reader.read_exact(&mut buf)?;",
          expect="C12.l/read_raw_bytes/buffer-sized-by-the-requested-length"),
+    dict(id="C12.m-D11-reintroduced-raw-storage-of-an-unaligned-vector", prop="C12", file="crates/serialize/src/encode.rs",
+         old='        let mut aligned = self.clone();\n        aligned.force_align();\n        for item in aligned.as_raw_slice() {', new="        for item in self.as_raw_slice() {",
+         expect="C12.m/BitVec/raw-storage-read-only-when-aligned"),
+    dict(id="C12.m-force_align-on-a-different-copy", prop="C12", file="crates/serialize/src/encode.rs",
+         old='        let mut aligned = self.clone();\n        aligned.force_align();\n        for item in aligned.as_raw_slice() {', new="        let mut aligned = self.clone();\n        aligned.force_align();\n        let other = self.clone();\n        for item in other.as_raw_slice() {",
+         expect="C12.m/BitVec/raw-storage-read-only-when-aligned"),
+    dict(id="C13.c-bitvec-hash-reads-raw-storage", prop="C13", file="crates/stable_hash/src/lib.rs",
+         old="impl<T: StableHash + BitStore, O: BitOrder> StableHash for BitVec<T, O> {\n    fn stable_hash<H: StableHasher + ?Sized>(&self, state: &mut H) {\n        state.write_length_prefix(self.len());\n        for item in self {",
+         new="impl<T: StableHash + BitStore, O: BitOrder> StableHash for BitVec<T, O> {\n    fn stable_hash<H: StableHasher + ?Sized>(&self, state: &mut H) {\n        state.write_length_prefix(self.len());\n        for item in self.as_raw_slice() {",
+         expect="C13.c/BitVec/raw-storage-read-only-when-aligned"),
     dict(id="C12.k-varint-reader-u128-stops-on-set-bit", prop="C12", file="crates/serialize/src/postcard.rs",
          old="            result |= u128::from(byte & 0x7F) << shift;\n\n            if byte & 0x80 == 0 {",
          new="            result |= u128::from(byte & 0x7F) << shift;\n\n            if byte & 0x80 != 0 {",
